@@ -154,131 +154,128 @@ void final_checks(bool all_must_have_run) {
     }
 }
 
-} // namespace
-
-PBT_PROPERTY(thread_pool) {
-    st.reset();
-    int tmpl = (int)src.range(0, 5);
-    int P = (int)src.range(1, 4);
-    bool use_init = src.chance(64);
-    bool spurious = src.chance(40);
-    bool used_terminate = false, nested = false;
-
-    // ---- draw the scenario program first (then the schedule) ----
-    std::vector<std::vector<int>> rounds;  // T0: roots per round
+struct Program {
+    int tmpl = 0, P = 1;
+    bool use_init = false, spurious = false, nested = false;
+    std::vector<std::vector<int>> rounds; // template 0: roots per round
     std::vector<int> main_roots, ext1_roots, ext2_roots;
     int n_ext = 0;
     bool main_waits_concurrently = false, partial_wait = false, terminate_early = false;
-    switch (tmpl) {
+};
+static const char* tnames[] = {"closed-rounds", "ext-enqueuers", "terminate-from-job", "two-waiters", "destroy-while-busy", "terminate-outside"};
+
+//! draw the scenario program (fills st.jobs)
+Program gen_program(pbt::Source& src) {
+    Program g;
+    g.tmpl = (int)src.range(0, 5);
+    g.P = (int)src.range(1, 4);
+    g.use_init = src.chance(64);
+    g.spurious = src.chance(40);
+    bool used_terminate = false;
+    switch (g.tmpl) {
     case 0: { // closed: rounds of fill / wait-empty / check (reuse)
         int nr = (int)src.range(1, 3);
-        for (int r = 0; r < nr; ++r) rounds.push_back(gen_forest(src, (int)src.range(1, 4), false, used_terminate, nested));
+        for (int r = 0; r < nr; ++r) g.rounds.push_back(gen_forest(src, (int)src.range(1, 4), false, used_terminate, g.nested));
         break;
     }
     case 1: // external enqueuers, main waits concurrently, then joins and waits again
-        n_ext = (int)src.range(1, 2);
-        main_roots = gen_forest(src, (int)src.range(0, 3), false, used_terminate, nested);
-        ext1_roots = gen_forest(src, (int)src.range(1, 3), false, used_terminate, nested);
-        if (n_ext == 2) ext2_roots = gen_forest(src, (int)src.range(1, 3), false, used_terminate, nested);
-        main_waits_concurrently = src.boolean();
+        g.n_ext = (int)src.range(1, 2);
+        g.main_roots = gen_forest(src, (int)src.range(0, 3), false, used_terminate, g.nested);
+        g.ext1_roots = gen_forest(src, (int)src.range(1, 3), false, used_terminate, g.nested);
+        if (g.n_ext == 2) g.ext2_roots = gen_forest(src, (int)src.range(1, 3), false, used_terminate, g.nested);
+        g.main_waits_concurrently = src.boolean();
         break;
     case 2: // a job terminates the pool; main waits for termination
-        main_roots = gen_forest(src, (int)src.range(1, 4), true, used_terminate, nested);
-        if (!used_terminate) st.jobs[(size_t)main_roots.back()].terminates = used_terminate = true;
+        g.main_roots = gen_forest(src, (int)src.range(1, 4), true, used_terminate, g.nested);
+        if (!used_terminate) st.jobs[(size_t)g.main_roots.back()].terminates = used_terminate = true;
         break;
     case 3: // two waiters: helper drains then terminates; main waits for termination
-        main_roots = gen_forest(src, (int)src.range(0, 2), false, used_terminate, nested);
-        ext1_roots = gen_forest(src, (int)src.range(1, 3), false, used_terminate, nested);
-        n_ext = 1;
+        g.main_roots = gen_forest(src, (int)src.range(0, 2), false, used_terminate, g.nested);
+        g.ext1_roots = gen_forest(src, (int)src.range(1, 3), false, used_terminate, g.nested);
+        g.n_ext = 1;
         if (src.chance(80)) {
-            ext2_roots = gen_forest(src, (int)src.range(1, 2), false, used_terminate, nested);
-            n_ext = 2;
+            g.ext2_roots = gen_forest(src, (int)src.range(1, 2), false, used_terminate, g.nested);
+            g.n_ext = 2;
         }
         break;
     case 4: // destruction while jobs are queued or running
-        main_roots = gen_forest(src, (int)src.range(1, 5), false, used_terminate, nested);
-        partial_wait = src.chance(64);
+        g.main_roots = gen_forest(src, (int)src.range(1, 5), false, used_terminate, g.nested);
+        g.partial_wait = src.chance(64);
         break;
     default: // terminate() from outside, then wait for termination
-        main_roots = gen_forest(src, (int)src.range(1, 4), false, used_terminate, nested);
-        terminate_early = src.boolean();
+        g.main_roots = gen_forest(src, (int)src.range(1, 4), false, used_terminate, g.nested);
+        g.terminate_early = src.boolean();
         break;
     }
-    static const char* tnames[] = {"closed-rounds", "ext-enqueuers", "terminate-from-job", "two-waiters", "destroy-while-busy", "terminate-outside"};
-    pbt::label(tnames[tmpl]);
-    if (nested) pbt::label("nested");
-    if (use_init) pbt::label("init_thread");
-    if (spurious) pbt::label("spurious_wakeups");
-    if (pbt::verbose()) {
-        PBT_LOG("template=" << tnames[tmpl] << " workers=" << P << " init_thread=" << use_init << " spurious=" << spurious << " jobs=" << st.jobs.size() << "\n");
-        for (size_t j = 0; j < st.jobs.size(); ++j) {
-            PBT_LOG(" job" << j << ": children=[");
-            for (int c : st.jobs[j].children) PBT_LOG(c << " ");
-            PBT_LOG("] terminates=" << st.jobs[j].terminates << " extra_points=" << st.jobs[j].extra_points << "\n");
-        }
-    }
+    return g;
+}
 
-    // ---- run it under the scheduler ----
-    vsched::Options opt;
-    opt.spurious_wakeups = spurious;
-    vsched::Run run(src, opt);
+void describe(const Program& g) {
+    if (!pbt::verbose()) return;
+    PBT_LOG("template=" << tnames[g.tmpl] << " workers=" << g.P << " init_thread=" << g.use_init << " spurious=" << g.spurious << " jobs=" << st.jobs.size() << "\n");
+    for (size_t j = 0; j < st.jobs.size(); ++j) {
+        PBT_LOG(" job" << j << ": children=[");
+        for (int c : st.jobs[j].children) PBT_LOG(c << " ");
+        PBT_LOG("] terminates=" << st.jobs[j].terminates << " extra_points=" << st.jobs[j].extra_points << "\n");
+    }
+}
+
+//! run the program once; the caller has started the scheduler run. st.jobs must be filled, counters reset.
+void execute(const Program& g) {
+    const int tmpl = g.tmpl, P = g.P;
     {
-        tlx::ThreadPool pool((size_t)P, use_init ? tlx::ThreadPool::InitThread([](size_t) { st.init_calls++; }) : tlx::ThreadPool::InitThread());
+        tlx::ThreadPool pool((size_t)P, g.use_init ? tlx::ThreadPool::InitThread([](size_t) { st.init_calls++; }) : tlx::ThreadPool::InitThread());
         st.pool = &pool;
         SCHED_CHECK(pool.size() == (size_t)P, "C10/size", "size()=" << pool.size());
         switch (tmpl) {
         case 0:
-            for (auto& roots : rounds) {
+            for (auto& roots : g.rounds) {
                 for (int r : roots) enqueue_job(r);
                 wait_empty_checked(true, "main");
                 SCHED_CHECK(pool.idle() <= (size_t)P, "C10/idle-range", "idle()=" << pool.idle());
             }
-            if (rounds.size() > 1) pbt::label("reuse_after_empty");
             break;
         case 1: {
-            Thread e1([&]() { for (int r : ext1_roots) enqueue_job(r); });
+            Thread e1([&]() { for (int r : g.ext1_roots) enqueue_job(r); });
             Thread e2;
-            if (n_ext == 2) e2 = Thread([&]() { for (int r : ext2_roots) enqueue_job(r); });
-            for (int r : main_roots) enqueue_job(r);
-            if (main_waits_concurrently) wait_empty_checked(false, "main(concurrent)");
+            if (g.n_ext == 2) e2 = Thread([&]() { for (int r : g.ext2_roots) enqueue_job(r); });
+            for (int r : g.main_roots) enqueue_job(r);
+            if (g.main_waits_concurrently) wait_empty_checked(false, "main(concurrent)");
             e1.join();
-            if (n_ext == 2) e2.join();
+            if (g.n_ext == 2) e2.join();
             wait_empty_checked(true, "main(final)");
             break;
         }
         case 2:
-            for (int r : main_roots) enqueue_job(r);
+            for (int r : g.main_roots) enqueue_job(r);
             wait_terminate_checked("main");
-            pbt::label("terminate_from_job");
             break;
         case 3: {
             Thread helper([&]() {
-                for (int r : ext1_roots) enqueue_job(r);
+                for (int r : g.ext1_roots) enqueue_job(r);
                 wait_empty_checked(false, "helper");
                 st.terminate_called = true;
                 st.pool->terminate();
             });
             Thread e2;
-            if (n_ext == 2) e2 = Thread([&]() { for (int r : ext2_roots) enqueue_job(r); });
-            for (int r : main_roots) enqueue_job(r);
+            if (g.n_ext == 2) e2 = Thread([&]() { for (int r : g.ext2_roots) enqueue_job(r); });
+            for (int r : g.main_roots) enqueue_job(r);
             wait_terminate_checked("main");
             helper.join();
-            if (n_ext == 2) e2.join();
-            pbt::label("two_waiters");
+            if (g.n_ext == 2) e2.join();
             break;
         }
         case 4:
-            for (int r : main_roots) enqueue_job(r);
-            if (partial_wait) wait_empty_checked(true, "main");
-            pbt::label("destroy_while_busy");
+            for (int r : g.main_roots) enqueue_job(r);
+            if (g.partial_wait) wait_empty_checked(true, "main");
             break;
         default:
-            if (terminate_early) {
+            if (g.terminate_early) {
                 st.terminate_called = true;
                 pool.terminate();
-                for (int r : main_roots) enqueue_job(r); // stays unexecuted or runs: both allowed
+                for (int r : g.main_roots) enqueue_job(r); // stays unexecuted or runs: both allowed
             } else {
-                for (int r : main_roots) enqueue_job(r);
+                for (int r : g.main_roots) enqueue_job(r);
                 st.terminate_called = true;
                 pool.terminate();
             }
@@ -294,10 +291,110 @@ PBT_PROPERTY(thread_pool) {
     } // ~ThreadPool: must return once running jobs finish
     vsched::note("");
     st.pool = nullptr;
-    final_checks(/*all_must_have_run=*/!st.terminate_called && (tmpl == 0 || tmpl == 1 || (tmpl == 4 && partial_wait)));
-    if (use_init) SCHED_CHECK(st.init_calls == P, "C10/init-thread", "init_thread ran " << st.init_calls << " times for " << P << " workers");
+    final_checks(/*all_must_have_run=*/!st.terminate_called && (tmpl == 0 || tmpl == 1 || (tmpl == 4 && g.partial_wait)));
+    if (g.use_init) SCHED_CHECK(st.init_calls == P, "C10/init-thread", "init_thread ran " << st.init_calls << " times for " << P << " workers");
+}
+
+} // namespace
+
+PBT_PROPERTY(thread_pool) {
+    st.reset();
+    Program g = gen_program(src);
+    pbt::label(tnames[g.tmpl]);
+    if (g.nested) pbt::label("nested");
+    if (g.use_init) pbt::label("init_thread");
+    if (g.spurious) pbt::label("spurious_wakeups");
+    if (g.tmpl == 0 && g.rounds.size() > 1) pbt::label("reuse_after_empty");
+    describe(g);
+    vsched::Options opt;
+    opt.spurious_wakeups = g.spurious;
+    vsched::Run run(src, opt);
+    execute(g);
     auto& S = vsched::S();
-    if (P >= 2 && nested && S.preemptions >= 2) pbt::nontrivial();
+    if (g.P >= 2 && g.nested && S.preemptions >= 2) pbt::nontrivial();
     if (S.preemptions >= 4) pbt::label("preemptions>=4");
     PBT_LOG("steps=" << S.steps << " switches=" << S.switches << " preemptions=" << S.preemptions << "\n");
+}
+
+// ---------------------------------------------------------------------------------------------
+// Bounded-exhaustive exploration: ALL schedules with at most `bound` preemptions of small fixed
+// scenario templates (enumerate step: one chunk = one template).
+#include "../engine/sched/explore.hpp"
+
+namespace {
+struct Template {
+    const char* name;
+    unsigned bound;
+    void (*build)(Program&);
+};
+int add_job(std::initializer_list<int> children = {}, bool terminates = false) {
+    st.jobs.emplace_back();
+    st.jobs.back().children.assign(children.begin(), children.end());
+    st.jobs.back().terminates = terminates;
+    return (int)st.jobs.size() - 1;
+}
+const Template TEMPLATES[] = {
+    {"1 worker, 2 independent jobs, wait-empty, reuse with 1 more job", 3, [](Program& g) {
+         g.tmpl = 0, g.P = 1;
+         int a = add_job(), b = add_job(), c = add_job();
+         g.rounds = {{a, b}, {c}};
+     }},
+    {"2 workers, a job that enqueues a job, wait-empty", 2, [](Program& g) {
+         g.tmpl = 0, g.P = 2, g.nested = true;
+         int child = add_job();
+         int parent = add_job({child});
+         g.rounds = {{parent}};
+     }},
+    {"1 worker, job terminates the pool, main waits for termination", 3, [](Program& g) {
+         g.tmpl = 2, g.P = 1;
+         int a = add_job();
+         int t = add_job({}, true);
+         g.main_roots = {a, t};
+     }},
+    {"two waiters: helper enqueues, drains and terminates; main waits for termination (1 worker)", 3, [](Program& g) {
+         g.tmpl = 3, g.P = 1, g.n_ext = 1;
+         int a = add_job();
+         g.ext1_roots = {a};
+     }},
+    {"destroy while busy: 2 workers, 2 jobs, no wait", 2, [](Program& g) {
+         g.tmpl = 4, g.P = 2;
+         int a = add_job(), b = add_job();
+         g.main_roots = {a, b};
+     }},
+    {"external enqueuer + concurrent wait-empty (1 worker)", 2, [](Program& g) {
+         g.tmpl = 1, g.P = 1, g.n_ext = 1, g.main_waits_concurrently = true;
+         int a = add_job(), b = add_job();
+         g.main_roots = {a};
+         g.ext1_roots = {b};
+     }},
+};
+const size_t NTEMPLATES = sizeof(TEMPLATES) / sizeof(TEMPLATES[0]);
+} // namespace
+
+PBT_PROPERTY(thread_pool_exhaustive) {
+    uint64_t idx = src.bits(8), total = src.bits(8);
+    if (total == 0) total = NTEMPLATES, idx = 0;
+    uint8_t none = 0;
+    for (uint64_t t = idx; t < NTEMPLATES; t += total) {
+        const Template& T = TEMPLATES[t];
+        vsched::Explorer ex(T.bound, 30000000);
+        bool was_verbose = pbt::ctx().verbose;
+        pbt::ctx().verbose = false; // no per-switch trace for hundreds of thousands of runs
+        uint64_t n = ex.explore([&](vsched::Explorer& e) {
+            st.reset();
+            Program g;
+            T.build(g);
+            pbt::Source dummy(&none, 0);
+            vsched::Options opt;
+            vsched::Run run(dummy, opt);
+            e.install();
+            execute(g);
+        });
+        pbt::ctx().verbose = was_verbose;
+        pbt::count(n);
+        PBT_LOG("template " << t << " (" << T.name << "): " << n << " schedules with <= " << T.bound << " preemptions, complete=" << ex.complete << "\n");
+        if (!ex.complete) pbt::inconclusive();
+    }
+    pbt::label("template");
+    pbt::nontrivial();
 }
